@@ -116,7 +116,7 @@ def _run(case, slice_name, wd, res, cnt):
         return
     refs = []
     for q, sin in enumerate(case.stdins):
-        ro = diffexec.run(oexe, stdin=sin)
+        ro = diffexec.run(oexe, stdin=sin, timeout=tplab.RUN_TIMEOUT)
         cnt['program_runs'] = cnt.get('program_runs', 0) + 1
         if ro['rc'] != 0 or ro['san']:
             res['inconclusive'] = f"generator defect (original does not run clean): input {q} rc={ro['rc']} {ro['san'][:2]} {ro['err'][-300:]}"
@@ -161,7 +161,8 @@ def _run(case, slice_name, wd, res, cnt):
             m = mism[0]
             tag = {'i': 'integer', 'l': 'logical', 'f': 'real32', 'd': 'real64'}.get(m['tag'], m['tag'])
             where = 'array' if any(o[0] == m['name'] and o[3] for o in case.outputs) else 'scalar'
-            viol(f'f2py:output-differs:{tag}-{where}', f'input {q}: {mism[:2]}', pysrc,
+            kind = f':{tag}-{where}' if slice_name == 'core' else ''
+            viol(f'f2py:output-differs{kind}', f'input {q}: {mism[:2]}', pysrc,
                  {'input': case.inputs[q], 'mismatches': mism[:6], 'n_mismatch': len(mism)})
             return
 
